@@ -323,7 +323,19 @@ class Loader(importlib.abc.MetaPathFinder, importlib.abc.Loader):
         mon.register_callback(tid, mon.events.LINE, on_line)
         mon.set_events(tid, mon.events.PY_START | mon.events.LINE)
 
-    def new_lines(self):
+    def begin_path(self):
+        """re-arm the per-location LINE events so that the lines of THIS path are recorded (each fires once per path)"""
+        self.lines = set()
+        if self._mon:
+            try:
+                sys.monitoring.restart_events()
+            except Exception:      # noqa
+                pass
+
+    def new_lines(self, feasible=True):
+        """lines executed by this path that no earlier FEASIBLE path of this worker has reported"""
+        if not feasible:
+            return []
         d = self.lines - self._lines_sent
         self._lines_sent |= d
         return sorted(d)
